@@ -511,6 +511,39 @@ def sweep_structure(ctx, rule):
             {m.args[1].op for m in mids} == {"loopvar", "loopout"}
     ctx.ob(rule, fq, tops[0].node if tops else None, okth, "the first point uses threshold +inf (nobody selected); every later "
            "threshold is the midpoint between the tie group's score and the next score", construct="sweep thresholds")
+    # the returned frame: column x holds the x_metric values, y the y_metric values, operation the threshold operations, one row per
+    # swept point, sorted by (x, y) with a fresh positional index
+    apps = [e for e in r.events if e.kind == "call" and e.func == fq and e.data["fterm"].op == "attr" and e.data["fterm"].args[1] == "append"
+            and e.loops and e.data["fterm"].args[0].op == "loopvar" and e.data["args"]]
+    role = {}
+    P = r.params
+    for e in apps:
+        v, name = e.data["args"][0], e.data["fterm"].args[0].args[0]
+        has_x, has_y = contains(v, lambda s_: s_ is P["x_metric"]), contains(v, lambda s_: s_ is P["y_metric"])
+        if v.op == "new" and v.args[0] == M_TOP + ":ThresholdOperation":
+            role.setdefault("operation", set()).add(name)
+        elif has_x and not has_y:
+            role.setdefault("x", set()).add(name)
+        elif has_y and not has_x:
+            role.setdefault("y", set()).add(name)
+    ret = r.ret
+    okf = ret is not None and all(len(role.get(k, ())) == 1 for k in ("x", "y", "operation")) and \
+        len({next(iter(role[k])) for k in ("x", "y", "operation")}) == 3
+    cols = {}
+    if okf:
+        dicts = [s_.args[1][0] for s_ in subterms(ret) if s_.op == "call" and s_.args[0] is glob("pandas.DataFrame") and s_.args[1]
+                 and s_.args[1][0].op == "dict"]
+        okf = len(dicts) == 1
+        if okf:
+            cols = {const_value(k): v for k, v in dicts[0].args[0] if k.op == "const"}
+            okf = set(cols) == {"x", "y", "operation"} and all(
+                cols[k].op in ("loopout", "loopvar") and cols[k].args[0] == next(iter(role[k])) for k in cols)
+            okf = okf and A.eq(ret, A.spec("pd.DataFrame(D).sort_values(by=['x', 'y']).reset_index(drop=True)",
+                                           {"D": dicts[0], "pd": glob("pandas")}))
+    ctx.ob(rule, fq, None, bool(okf), "the swept points are returned as DataFrame({x: x_metric values, y: y_metric values, operation: "
+           "threshold operations}) sorted by (x, y) with a positional index" if okf else "the returned frame does not pair column x with the "
+           "x_metric values, y with the y_metric values and operation with the threshold operations (sorted by (x, y), index reset)",
+           construct="sweep result frame")
     # sorted descending by score
     A2 = Analysis(ctx)
     rs = A2.run(M_TC + ":_get_scores_labels_and_counts")
@@ -519,7 +552,9 @@ def sweep_structure(ctx, rule):
     ret = rs.ret
     def col(t, key):
         b = {"S": srt, "K": A2.entry(rs, key), "list": glob("builtins.list")}
-        return A2.eq(t, A2.spec("list(S[K])", b)) or A2.eq(t, A2.spec("S[K].tolist()", b))
+        # tolist is transparent in the normal form: require the list-making call itself (a bare Series would be label-indexed)
+        listy = t.op == "call" and (t.args[0] is glob("builtins.list") or (t.args[0].op == "attr" and t.args[0].args[1] in ("tolist", "to_list")))
+        return listy and (A2.eq(t, A2.spec("list(S[K])", b)) or A2.eq(t, A2.spec("S[K].tolist()", b)))
     oks = ret is not None and ret.op == "tuple" and col(ret.args[0][0], "SCORE_KEY") and col(ret.args[0][1], "LABEL_KEY")
     ctx.ob(rule, rs.func, None, oks, "scores and labels are read from the same frame sorted by descending score",
            construct="sweep ordering")
